@@ -1,6 +1,6 @@
 (* C13 — Every failed message is queued once, flagged in ESR, and read back in order
    (device level: the mandated handlers and Node::run's error hook on the documented wiring). *)
-From VF Require Import Base Gen_Errors ErrSpec Status Status_proofs.
+From VF Require Import Base Gen_Errors ErrSpec Status Status_proofs Contrib ContribSpec Contrib_proofs.
 Open Scope N_scope.
 
 (* A message that fails: the state is the one left by the executed prefix, plus exactly the
@@ -49,9 +49,27 @@ Example C13_example :
   /\ esr (push_error (set_ese dev_init 32) e) = 32.
 Proof. split; reflexivity. Qed.
 
+(* The theorems above are about the operation-level device model (Status.v).  They transfer to the byte-level
+   full-stack model of Contrib.v (program-message bytes -> Lexer -> Tree dispatcher -> the mandated command tree ->
+   Response formatter -> error hook): on the canonical text of any operation list, in every device state reachable
+   from power-on by such messages, the full stack computes exactly the operation-level result (state, response
+   bytes, error), and never panics. *)
+Theorem C13_full_stack_refines : forall msgs mav us,
+  forallb (fun m => forallb renderable (snd m)) msgs = true -> forallb renderable us = true ->
+  dev_message (session_ops dev_init msgs) mav (units_text us) = Val (op_message (session_ops dev_init msgs) mav us).
+Proof. exact contrib_refines_ops_session. Qed.
+(* ... and in an arbitrary device state exactly when every queued error is renderable (a custom non-ASCII message
+   without extended text is not: the response formatter rejects it) *)
+Theorem C13_full_stack_refines_iff : forall d,
+  (forall mav us, forallb renderable us = true -> dev_message d mav (units_text us) = Val (op_message d mav us))
+  <-> queue_printable d = true.
+Proof. exact contrib_refines_ops_iff. Qed.
+
 Print Assumptions C13_fail_queues_once.
 Print Assumptions C13_ok_queues_nothing.
 Print Assumptions C13_syst_err_next.
 Print Assumptions C13_syst_err_count.
 Print Assumptions C13_syst_err_all.
 Print Assumptions C13_esr_read_clears.
+Print Assumptions C13_full_stack_refines.
+Print Assumptions C13_full_stack_refines_iff.
